@@ -887,8 +887,11 @@ def run_c19(ctx: Ctx):
                     n += 1
                     ctx.sig((hash(cname) % 7, classify(first), sum(isinstance(v, list) for v in kw2.values())))
                     if first != second or genlib.render(obj) != ro:
-                        fails(ctx, case, f"{cname}: serialising the same instance twice differs after the caller mutated its argument lists: "
-                              f"`{first[:80]}` then `{second[:80]}`", {"class": cname, "object": ro})
+                        at = next((i for i, (x, y) in enumerate(zip(first, second)) if x != y), min(len(first), len(second)))
+                        fails(ctx, case, f"{cname}: serialising the same instance again gives different bytes (caller-side changes of "
+                              f"the argument lists and a serialisation under the other entry mode in between); first difference at "
+                              f"character {at}: `…{first[max(0, at - 12):at + 12]}` then `…{second[max(0, at - 12):at + 12]}`",
+                              {"class": cname, "object": ro, "first": first, "again": second})
                         return
                     if first.startswith("ok"):
                         data = bytes.fromhex(first.split()[1]) if first.split()[1] != "-" else b""
